@@ -380,7 +380,12 @@ pub fn write_evidence(rep: &Report, violations: usize) {
     let mut cov = serde_json::Map::new();
     cov.insert("evaluations".into(), json!(rep.evaluations.max(1)));
     cov.insert("distinct_nontrivial".into(), json!(rep.distinct_nontrivial));
-    cov.insert("rule".into(), json!(rep.rule));
+    let rule = if rep.distinct_nontrivial >= 2_000_000 {
+        format!("{} [distinct cases are counted up to a cap of 2 000 000 per worker-merged measure to bound memory: the true number is at least the one reported]", rep.rule)
+    } else {
+        rep.rule.clone()
+    };
+    cov.insert("rule".into(), json!(rule));
     let samples = if rep.counters.samples.is_empty() { vec![json!("no sample recorded")] } else { rep.counters.samples.clone() };
     cov.insert("samples".into(), Value::Array(samples));
     if rep.exhaustive {
